@@ -1106,3 +1106,10 @@ UM = "codemodder/codemods/utils_mixin.py"
 add("C18", "plain-import-resolved-by-statement", UM,
     [("        if matchers.matches(import_node, matchers.Import()):\n            return get_full_name_for_node(import_alias.name)", "        if matchers.matches(import_node, matchers.Import()):\n            return _get_name(import_node)")],
     "fire", "R-ALIAS-DECIDES", "base_name_for_import")
+DROT = "core_codemods/django_receiver_on_top.py"
+add("C16", "decorator-reorder-drops-other-decorators-of-same-kind", DROT,
+    [("                new_decorators.extend(\n                    d for d in original_node.decorators if d != receiver\n                )", "                new_decorators.extend(\n                    d for d in original_node.decorators if not isinstance(d.decorator, cst.Call)\n                )")],
+    "fire", "R-REBUILD-KEEPS-ALL", "leave_FunctionDef")
+add("C16", "benign-decorator-reorder-written-as-loop", DROT,
+    [("                new_decorators.extend(\n                    d for d in original_node.decorators if d != receiver\n                )", "                for d in original_node.decorators:\n                    if d != receiver:\n                        new_decorators.append(d)")],
+    "silent")
